@@ -209,8 +209,9 @@ Section NetProofs.
   Lemma add_sens_other c r d x : x <> ref_sig r -> add_sens dims c r d x = c x.
   Proof.
     intros Hn. destruct d as [d|]; [|reflexivity].
-    destruct r as [s|s idx]; simpl in *.
+    destruct r as [s|s idx|s idx]; simpl in *.
     - destruct (c s); apply upd_other; exact Hn.
+    - apply upd_other; exact Hn.
     - apply upd_other; exact Hn.
   Qed.
 
@@ -218,8 +219,9 @@ Section NetProofs.
   Proof.
     intros E. destruct (Nat.eq_dec x (ref_sig r)) as [->|Hn].
     - destruct d as [d|]; [|exact E].
-      destruct r as [s|s idx]; simpl in *.
+      destruct r as [s|s idx|s idx]; simpl in *.
       + rewrite E. destruct (c2 s); rewrite !upd_same; reflexivity.
+      + rewrite E. rewrite !upd_same. reflexivity.
       + rewrite E. rewrite !upd_same. reflexivity.
     - rewrite !add_sens_other by exact Hn. exact E.
   Qed.
@@ -232,7 +234,7 @@ Section NetProofs.
     intros Hc Hr Hd. destruct d as [d|]; [|exact Hc].
     specialize (Hd d eq_refl).
     intros x g. destruct (Nat.eq_dec x (ref_sig r)) as [->|Hn].
-    - destruct r as [s|s idx]; simpl in *.
+    - destruct r as [s|s idx|s idx]; simpl in *; [| |discriminate].
       + destruct (c s) as [g0|] eqn:E; rewrite upd_same; intros [= <-].
         * rewrite length_vadd; [apply (Hc s); exact E|]. rewrite (Hc s g0 E). symmetry. exact Hd.
         * exact Hd.
@@ -248,7 +250,7 @@ Section NetProofs.
   Proof.
     intros Hc Hr Hd. destruct d as [d|]; [|simpl; ring].
     specialize (Hd d eq_refl).
-    destruct r as [s|s idx]; simpl in *.
+    destruct r as [s|s idx|s idx]; simpl in *; [| |discriminate].
     - destruct (c s) as [g0|] eqn:E; rewrite upd_same; simpl.
       + apply dot_vadd. rewrite (Hc s g0 E). symmetry. exact Hd.
       + ring.
@@ -309,7 +311,7 @@ Section NetProofs.
 
   (* ------------------------------------------------------------------ response of one module *)
   Lemma length_read_t t r : wt_tan dims t -> length (read_t t r) = ref_dim dims r.
-  Proof. intros Ht. destruct r as [s|s idx]; simpl; [apply Ht | apply length_gather]. Qed.
+  Proof. intros Ht. destruct r as [s|s idx|s idx]; simpl; [apply Ht | apply length_gather | apply length_gather]. Qed.
 
   Lemma shapes_read t ins : wt_tan dims t -> shapes (map (read_t t) ins) (map (ref_dim dims) ins).
   Proof.
@@ -565,5 +567,392 @@ Section NetProofs.
     - apply nsum_map_ext_in. intros x Hx. apply filter_In in Hx as [_ Hx].
       apply negb_true_iff in Hx. apply mem_false in Hx. rewrite S1 by exact Hx. reflexivity.
     - intros x _ Hx. apply negb_false_iff in Hx. apply mem_In in Hx. rewrite S2 by exact Hx. reflexivity.
+  Qed.
+
+  (* ------------------------------------------------------------------ components of the source sensitivities *)
+  Lemma nth_vzero k n : nth k (vzero n : vec K) 0' = 0'.
+  Proof. unfold vzero. apply nth_repeat. Qed.
+
+  Lemma dot_unit (g : vec K) k n : k < n -> length g = n -> dot g (set_at k none_ (vzero n)) = nth k g 0'.
+  Proof.
+    intros Hk Hl. rewrite dot_comm, dot_set_at by (rewrite length_vzero; exact Hk).
+    rewrite dot_vzero, nth_vzero. ring.
+  Qed.
+
+  Lemma unit_tan_wt s k : wt_tan dims (unit_tan dims s k).
+  Proof.
+    intros x. unfold unit_tan. destruct (Nat.eqb x s) eqn:E.
+    - apply Nat.eqb_eq in E. subst. rewrite length_set_at. apply length_vzero.
+    - apply length_vzero.
+  Qed.
+
+  Lemma pairing_unit l (c : cenv K) s k :
+    NoDup l -> In s l -> k < dims s -> wt_cot dims c -> pairing_on l c (unit_tan dims s k) = onth k (c s).
+  Proof.
+    intros Hnd Hin Hk Hc. unfold pairing_on.
+    rewrite (nsum_map_upd (fun _ => 0') (fun x => odot (c x) (unit_tan dims s k x)) s l Hnd Hin).
+    - rewrite nsum_map_zero by reflexivity. unfold unit_tan. rewrite Nat.eqb_refl.
+      destruct (c s) as [g|] eqn:E; simpl; [|ring].
+      rewrite dot_unit by (auto; apply (Hc s g E)). ring.
+    - intros x Hx. unfold unit_tan. apply Nat.eqb_neq in Hx. rewrite Hx.
+      destruct (c x) as [g|]; simpl; [|reflexivity]. rewrite dot_comm. apply dot_vzero.
+  Qed.
+
+  Lemma add_all_wt : forall ins ds (c : cenv K),
+    oshapes ds (map (ref_dim dims) ins) -> forallb (wt_ref dims) ins = true -> wt_cot dims c ->
+    wt_cot dims (add_all (combine ins ds) c).
+  Proof.
+    induction ins as [|r ins IH]; intros ds c Hs Hw Hc.
+    - exact Hc.
+    - inversion Hs as [|d n ds' ns Hd Hs']; subst.
+      simpl in Hw. apply andb_true_iff in Hw as [Hr Hw].
+      change (add_all (combine (r :: ins) (d :: ds')) c) with (add_all (combine ins ds') (add_sens dims c r d)).
+      apply IH; auto. apply add_sens_wt; assumption.
+  Qed.
+
+  Lemma bwd_wt mods (c : cenv K) : wt_net dims mods -> wt_cot dims c -> wt_cot dims (bwd dims mods c).
+  Proof.
+    intros Hw Hc. induction Hw as [|m ms Hm _ IH]; [exact Hc|].
+    rewrite bwd_cons. unfold bwd_mod. destruct (skip m _); [exact IH|].
+    destruct Hm as [Hwr [_ [Ha _]]].
+    unfold apply_adj. apply add_all_wt; auto. apply Ha. apply fill_shapes. exact IH.
+  Qed.
+
+  (* entry k of the sensitivity of source s = the seeds paired with the forward image of the unit tangent *)
+  Theorem source_sensitivity_component N mods (c : cenv K) s k :
+    wf_net mods = true -> below N mods = true -> wt_net dims mods -> wt_cot dims c ->
+    In s (sources N mods) -> k < dims s ->
+    onth k (bwd dims mods c s) = pairing_on (seq 0 N) c (fwd mods (unit_tan dims s k)).
+  Proof.
+    intros Hwf Hb Hw Hc Hs Hk.
+    rewrite (backprop_adjoint N mods c (unit_tan dims s k) Hwf Hb Hw Hc (unit_tan_wt s k)).
+    symmetry. apply pairing_unit; auto.
+    - unfold sources. apply NoDup_filter. apply seq_NoDup.
+    - apply bwd_wt; assumption.
+  Qed.
+
+  (* ------------------------------------------------------------------ unseeded branches *)
+  Theorem unseeded_module_noop m (c : cenv K) :
+    m_outs m <> [] -> (forall o, In o (m_outs m) -> c o = None) -> bwd_mod dims m c = c.
+  Proof.
+    intros Hne Hall. unfold bwd_mod, skip.
+    assert (Hf : forallb is_none (map c (m_outs m)) = true).
+    { rewrite forallb_forall. intros o Ho. apply in_map_iff in Ho as [x [<- Hx]]. rewrite (Hall x Hx). reflexivity. }
+    rewrite Hf. destruct (m_outs m); [congruence | reflexivity].
+  Qed.
+
+  (* ... and this agrees (None = zero) with calling the adjoint on zero seeds: it adds something whose pairing
+     with every tangent vanishes *)
+  Theorem unseeded_module_zero_seed l m (c : cenv K) (t : tenv K) :
+    NoDup l -> sigs_in l m -> wt_mod dims m -> wt_cot dims c -> wt_tan dims t ->
+    (forall o, In o (m_outs m) -> c o = None) ->
+    pairing_on l (apply_adj dims m (map c (m_outs m)) c) t = pairing_on l c t.
+  Proof.
+    intros Hnd [Hso Hsi] [Hwr [Hf [Ha Hadj]]] Hc Ht Hall.
+    pose proof (shapes_read t (m_ins m) Ht) as Hxs.
+    pose proof (fill_shapes c (m_outs m) Hc) as Hws.
+    unfold apply_adj.
+    destruct (add_all_pair l t Hnd (m_ins m) (m_adj m (fill dims (m_outs m) (map c (m_outs m)))) c
+                           (Ha _ Hws) Hwr Hsi Hc) as [E _].
+    unfold add_all in E. rewrite E. rewrite <- (Hadj _ _ Hxs Hws). rewrite <- outpair_fill.
+    rewrite outpair_all_none; [ring|].
+    rewrite forallb_forall. intros o Ho. apply in_map_iff in Ho as [x [<- Hx]]. rewrite (Hall x Hx). reflexivity.
+  Qed.
+
+  (* ------------------------------------------------------------------ outputs depend on source tangents only *)
+  Lemma read_t_agree (t1 t2 : tenv K) r : t1 (ref_sig r) = t2 (ref_sig r) -> read_t t1 r = read_t t2 r.
+  Proof. destruct r; simpl; intros ->; reflexivity. Qed.
+
+  Lemma write_outs_agree outs : forall ys (t1 t2 : tenv K) x,
+    (t1 x = t2 x \/ In x (firstn (length ys) outs)) -> write_outs outs ys t1 x = write_outs outs ys t2 x.
+  Proof.
+    induction outs as [|o outs IH]; intros ys t1 t2 x Hx.
+    - rewrite firstn_nil in Hx. destruct Hx as [Hx|[]]. exact Hx.
+    - destruct ys as [|y ys]; simpl in *; [destruct Hx as [Hx|[]]; exact Hx|].
+      apply IH. destruct (Nat.eq_dec x o) as [->|Hn].
+      + left. rewrite !upd_same. reflexivity.
+      + destruct Hx as [Hx|[Hx|Hx]]; [left; rewrite !upd_other by exact Hn; exact Hx | congruence | right; exact Hx].
+  Qed.
+
+  Theorem fwd_sources_only (mods : list (module K)) : wf_net mods = true -> wt_net dims mods ->
+    forall t1 t2 : tenv K, wt_tan dims t1 -> wt_tan dims t2 ->
+    (forall x, ~ In x (written mods) -> t1 x = t2 x) -> forall x, fwd mods t1 x = fwd mods t2 x.
+  Proof.
+    induction mods as [|m ms IH]; intros Hwf Hw t1 t2 H1 H2 Hag x.
+    - apply Hag. intros [].
+    - apply wf_net_cons in Hwf as [Hnd [Hdis [Hins Hwf]]].
+      inversion Hw as [|? ? Hm Hw']; subst.
+      rewrite !fwd_cons. apply IH; auto using fwd_mod_wt.
+      intros y Hy. unfold fwd_mod.
+      assert (Hxs : map (read_t t1) (m_ins m) = map (read_t t2) (m_ins m)).
+      { apply map_ext_in. intros r Hr. apply read_t_agree. apply Hag.
+        change (written (m :: ms)) with (m_outs m ++ written ms). rewrite in_app_iff.
+        assert (Hi : In (ref_sig r) (ins_sigs m)) by (unfold ins_sigs; apply in_map; exact Hr).
+        destruct (Hins _ Hi). tauto. }
+      rewrite Hxs. apply write_outs_agree.
+      destruct Hm as [_ [Hf _]]. pose proof (Hf _ (shapes_read t2 (m_ins m) H2)) as Hys.
+      rewrite (shapes_length _ _ Hys), map_length, firstn_all.
+      destruct (in_dec Nat.eq_dec y (m_outs m)) as [Hi|Hi]; [right; exact Hi|].
+      left. apply Hag. change (written (m :: ms)) with (m_outs m ++ written ms). rewrite in_app_iff. tauto.
+  Qed.
+
+  (* ------------------------------------------------------------------ nested networks *)
+  Section NodeInd.
+    Variable P : node K -> Prop.
+    Hypothesis HM : forall m, P (NMod m).
+    Hypothesis HN : forall l, Forall P l -> P (NNet l).
+    Fixpoint node_induction (n : node K) : P n :=
+      match n with
+      | NMod m => HM m
+      | NNet l => HN l ((fix go (l : list (node K)) : Forall P l :=
+                           match l with
+                           | [] => Forall_nil P
+                           | x :: r => Forall_cons x (node_induction x) (go r)
+                           end) l)
+      end.
+  End NodeInd.
+
+  Lemma fwd_app a b (t : tenv K) : fwd (a ++ b) t = fwd b (fwd a t).
+  Proof. unfold fwd. apply fold_left_app. Qed.
+  Lemma bwd_app a b (c : cenv K) : bwd dims (a ++ b) c = bwd dims a (bwd dims b c).
+  Proof. unfold bwd. rewrite rev_app_distr. apply fold_left_app. Qed.
+
+  Theorem fwd_node_flatten n : forall t : tenv K, fwd_node n t = fwd (flatten n) t.
+  Proof.
+    induction n as [m|l IH] using node_induction; intros t; [reflexivity|].
+    simpl. revert t. induction IH as [|x r Hx _ IHr]; intros t; [reflexivity|].
+    rewrite fwd_app, <- Hx. apply IHr.
+  Qed.
+
+  Theorem bwd_node_flatten n : forall c : cenv K, bwd_node dims n c = bwd dims (flatten n) c.
+  Proof.
+    induction n as [m|l IH] using node_induction; intros c; [reflexivity|].
+    simpl. revert c. induction IH as [|x r Hx _ IHr]; intros c; [reflexivity|].
+    rewrite bwd_app, <- IHr. apply Hx.
+  Qed.
+
+  (* ------------------------------------------------------------------ block-matrix modules are adjoint pairs *)
+  Lemma length_mv (M : mat K) x : length (mv M x) = length M.
+  Proof. apply map_length. Qed.
+
+  Definition rows_len (n : nat) (M : mat K) : Prop := Forall (fun row => length row = n) M.
+
+  Lemma length_mtv n (M : mat K) : rows_len n M -> forall w, length (mtv n M w) = n.
+  Proof.
+    induction 1 as [|row M Hr _ IH]; intros w; [apply length_vzero|].
+    destruct w as [|wr w]; [apply length_vzero|].
+    change (mtv n (row :: M) (wr :: w)) with (vadd (vscale wr row) (mtv n M w)).
+    rewrite length_vadd; rewrite length_vscale; [exact Hr|]. rewrite Hr. symmetry. apply IH.
+  Qed.
+
+  Lemma dot_mv_mtv n (M : mat K) x : rows_len n M -> forall w, dot w (mv M x) = dot (mtv n M w) x.
+  Proof.
+    induction 1 as [|row M Hr HM IH]; intros w.
+    - simpl. rewrite dot_nil_r. unfold mtv. simpl. rewrite dot_vzero. reflexivity.
+    - destruct w as [|wr w].
+      + rewrite dot_nil_l. unfold mtv. simpl. rewrite dot_vzero. reflexivity.
+      + change (mv (row :: M) x) with (dot row x :: mv M x).
+        change (mtv n (row :: M) (wr :: w)) with (vadd (vscale wr row) (mtv n M w)).
+        rewrite dot_cons, dot_vadd, dot_vscale, IH; [reflexivity|].
+        rewrite length_vscale, Hr. symmetry. apply length_mtv. exact HM.
+  Qed.
+
+  Lemma shapes_nth (ys : list (vec K)) ds k : shapes ys ds -> length (nth k ys []) = nth k ds 0.
+  Proof. unfold shapes. intros <-. symmetry. apply (map_nth (@length K) ys [] k). Qed.
+
+  Lemma add_nth_shapes k v : forall (ys : list (vec K)) ds,
+    shapes ys ds -> length v = nth k ds 0 -> shapes (add_nth k v ys) ds.
+  Proof.
+    unfold shapes. induction k as [|k IH]; intros [|y ys] ds Hs Hv; try exact Hs.
+    - destruct ds as [|d ds]; [discriminate|]. cbn [add_nth map]. cbn [map] in Hs. cbn [nth] in Hv.
+      injection Hs as E1 E2. rewrite length_vadd; [rewrite E1, E2; reflexivity | rewrite E1, Hv; reflexivity].
+    - destruct ds as [|d ds]; [discriminate|]. cbn [add_nth map]. cbn [map] in Hs. cbn [nth] in Hv.
+      injection Hs as E1 E2. rewrite E1. f_equal. apply IH; [exact E2 | exact Hv].
+  Qed.
+
+  Lemma sumdot_nil_l (ys : list (vec K)) : sumdot [] ys = 0'.
+  Proof. reflexivity. Qed.
+  Lemma sumdot_cons (w y : vec K) ws ys : sumdot (w :: ws) (y :: ys) = dot w y +' sumdot ws ys.
+  Proof. reflexivity. Qed.
+
+  Lemma sumdot_comm (a b : list (vec K)) : sumdot a b = sumdot b a.
+  Proof.
+    revert b. induction a as [|x a IH]; intros [|y b]; try reflexivity.
+    rewrite !sumdot_cons, IH, dot_comm. reflexivity.
+  Qed.
+
+  Lemma sumdot_add_nth k v : forall (ws ys : list (vec K)),
+    k < length ys -> length (nth k ys []) = length v ->
+    sumdot ws (add_nth k v ys) = sumdot ws ys +' dot (nth k ws []) v.
+  Proof.
+    induction k as [|k IH]; intros ws [|y ys] Hk Hl; simpl in Hk; try lia.
+    - destruct ws as [|w ws]; simpl add_nth.
+      + rewrite !sumdot_nil_l. simpl. rewrite dot_nil_l. ring.
+      + rewrite !sumdot_cons. simpl nth. simpl in Hl. rewrite (dot_comm w (vadd y v)), dot_vadd by exact Hl.
+        rewrite (dot_comm y w), (dot_comm v w). ring.
+    - destruct ws as [|w ws]; simpl add_nth.
+      + rewrite !sumdot_nil_l. simpl. rewrite dot_nil_l. ring.
+      + rewrite !sumdot_cons. simpl nth. rewrite IH by (simpl in Hl; auto; lia). ring.
+  Qed.
+
+  Lemma sumdot_zeros (ws : list (vec K)) ds : sumdot ws (map vzero ds) = 0'.
+  Proof.
+    revert ws. induction ds as [|d ds IH]; intros [|w ws]; try reflexivity.
+    simpl map. rewrite sumdot_cons, IH, dot_comm, dot_vzero. ring.
+  Qed.
+
+  Lemma shapes_zeros ds : shapes (map vzero ds : list (vec K)) ds.
+  Proof. unfold shapes. rewrite map_map. rewrite <- (map_id ds) at 2. apply map_ext. intros; apply length_vzero. Qed.
+
+  Definition blk_ok (L : lin K) (b : nat * nat * mat K) : Prop :=
+    blk_o b < length (l_odims L) /\ blk_i b < length (l_idims L) /\
+    length (blk_m b) = nth (blk_o b) (l_odims L) 0 /\ rows_len (nth (blk_i b) (l_idims L) 0) (blk_m b).
+
+  Lemma lin_ok_blocks L : lin_ok L = true ->
+    length (l_none L) = length (l_idims L) /\ Forall (blk_ok L) (eff_blocks L).
+  Proof.
+    unfold lin_ok. intros Hb. apply andb_true_iff in Hb as [H1 H2]. apply Nat.eqb_eq in H1. split; [exact H1|].
+    apply Forall_forall. intros b Hb. unfold eff_blocks in Hb. apply filter_In in Hb as [Hb _].
+    rewrite forallb_forall in H2. specialize (H2 b Hb).
+    apply andb_true_iff in H2 as [H2 H5]. apply andb_true_iff in H2 as [H3 H4].
+    apply Nat.ltb_lt in H3, H4. unfold mat_ok in H5. apply andb_true_iff in H5 as [H5 H6].
+    apply Nat.eqb_eq in H5. repeat split; auto.
+    apply Forall_forall. intros row Hr. rewrite forallb_forall in H6. apply Nat.eqb_eq. apply H6. exact Hr.
+  Qed.
+
+  Definition fold_fwd (xs : list (vec K)) (bl : list (nat * nat * mat K)) (ys : list (vec K)) :=
+    fold_left (fun ys b => add_nth (blk_o b) (mv (blk_m b) (nth (blk_i b) xs [])) ys) bl ys.
+  Definition fold_adj (L : lin K) (ws : list (vec K)) (bl : list (nat * nat * mat K)) (gs : list (vec K)) :=
+    fold_left (fun gs b => add_nth (blk_i b) (mtv (nth (blk_i b) (l_idims L) 0) (blk_m b) (nth (blk_o b) ws [])) gs) bl gs.
+
+  Lemma fold_fwd_shapes L xs bl : Forall (blk_ok L) bl -> forall ys,
+    shapes ys (l_odims L) -> shapes (fold_fwd xs bl ys) (l_odims L).
+  Proof.
+    induction 1 as [|b bl Hb _ IH]; intros ys Hs; [exact Hs|].
+    simpl. apply IH. apply add_nth_shapes; [exact Hs|].
+    rewrite length_mv. destruct Hb as [_ [_ [H3 _]]]. exact H3.
+  Qed.
+
+  Lemma fold_adj_shapes L ws bl : Forall (blk_ok L) bl -> forall gs,
+    shapes gs (l_idims L) -> shapes (fold_adj L ws bl gs) (l_idims L).
+  Proof.
+    induction 1 as [|b bl Hb _ IH]; intros gs Hs; [exact Hs|].
+    simpl. apply IH. apply add_nth_shapes; [exact Hs|].
+    destruct Hb as [_ [_ [_ H4]]]. apply length_mtv. exact H4.
+  Qed.
+
+  Lemma fold_adjoint L xs ws bl : Forall (blk_ok L) bl -> forall ys gs,
+    shapes ys (l_odims L) -> shapes gs (l_idims L) ->
+    sumdot ws (fold_fwd xs bl ys) +' sumdot gs xs = sumdot ws ys +' sumdot (fold_adj L ws bl gs) xs.
+  Proof.
+    induction 1 as [|b bl Hb Hbl IH]; intros ys gs Hy Hg; [simpl; ring|].
+    destruct Hb as [H1 [H2 [H3 H4]]].
+    set (v := mv (blk_m b) (nth (blk_i b) xs [])).
+    set (g := mtv (nth (blk_i b) (l_idims L) 0) (blk_m b) (nth (blk_o b) ws [])).
+    change (fold_fwd xs (b :: bl) ys) with (fold_fwd xs bl (add_nth (blk_o b) v ys)).
+    change (fold_adj L ws (b :: bl) gs) with (fold_adj L ws bl (add_nth (blk_i b) g gs)).
+    assert (Hy' : shapes (add_nth (blk_o b) v ys) (l_odims L)).
+    { apply add_nth_shapes; [exact Hy|]. unfold v. rewrite length_mv. exact H3. }
+    assert (Hg' : shapes (add_nth (blk_i b) g gs) (l_idims L)).
+    { apply add_nth_shapes; [exact Hg|]. unfold g. apply length_mtv. exact H4. }
+    pose proof (IH _ _ Hy' Hg') as E.
+    assert (EY : sumdot ws (add_nth (blk_o b) v ys) = sumdot ws ys +' dot (nth (blk_o b) ws []) v).
+    { apply sumdot_add_nth.
+      - rewrite (shapes_length _ _ Hy). exact H1.
+      - rewrite (shapes_nth _ _ _ Hy). unfold v. rewrite length_mv. symmetry. exact H3. }
+    assert (EG : sumdot (add_nth (blk_i b) g gs) xs = sumdot gs xs +' dot (nth (blk_o b) ws []) v).
+    { rewrite (sumdot_comm _ xs), sumdot_add_nth.
+      - rewrite (sumdot_comm xs gs). unfold v. rewrite (dot_mv_mtv _ _ _ H4). fold g.
+        rewrite (dot_comm (nth (blk_i b) xs [])). reflexivity.
+      - rewrite (shapes_length _ _ Hg). exact H2.
+      - rewrite (shapes_nth _ _ _ Hg). unfold g. symmetry. apply length_mtv. exact H4. }
+    rewrite EY, EG in E.
+    transitivity ((sumdot ws (fold_fwd xs bl (add_nth (blk_o b) v ys)) +' (sumdot gs xs +' dot (nth (blk_o b) ws []) v))
+                  -' dot (nth (blk_o b) ws []) v); [ring|].
+    rewrite E. ring.
+  Qed.
+
+  (* inputs for which the module returns None keep an all-zero dense sensitivity *)
+  Definition flag_zero (flags : list bool) (gs : list (vec K)) : Prop :=
+    Forall2 (fun (f : bool) (g : vec K) => f = true -> exists n, g = vzero n) flags gs.
+
+  Lemma flag_zero_init flags : forall ds, length flags = length ds -> flag_zero flags (map vzero ds).
+  Proof.
+    induction flags as [|f flags IH]; intros [|d ds] Hl; try discriminate; [constructor|].
+    simpl. constructor; [intros _; exists d; reflexivity | apply IH; simpl in Hl; lia].
+  Qed.
+
+  Lemma flag_zero_add flags gs : flag_zero flags gs -> forall k v, nth k flags false = false ->
+    flag_zero flags (add_nth k v gs).
+  Proof.
+    induction 1 as [|f g flags gs Hfg Hrest IH]; intros k v Hk; [destruct k; constructor|].
+    destruct k as [|k]; simpl in *.
+    - constructor; [intros Hf; congruence | exact Hrest].
+    - constructor; [exact Hfg | apply IH; exact Hk].
+  Qed.
+
+  Lemma fold_adj_flag_zero L ws bl : Forall (fun b => nth (blk_i b) (l_none L) false = false) bl ->
+    forall gs, flag_zero (l_none L) gs -> flag_zero (l_none L) (fold_adj L ws bl gs).
+  Proof.
+    induction 1 as [|b bl Hb _ IH]; intros gs Hg; [exact Hg|].
+    simpl. apply IH. apply flag_zero_add; assumption.
+  Qed.
+
+  Definition mask (flags : list bool) (gs : list (vec K)) : list (option (vec K)) :=
+    map (fun fg : bool * vec K => if fst fg then None else Some (snd fg)) (combine flags gs).
+
+  Lemma sumodot_mask flags gs : flag_zero flags gs -> forall xs, sumodot (mask flags gs) xs = sumdot gs xs.
+  Proof.
+    induction 1 as [|f g flags gs Hfg _ IH]; intros xs; [reflexivity|].
+    destruct xs as [|x xs]; [reflexivity|].
+    unfold mask, sumodot, sumdot in *. simpl. rewrite IH.
+    destruct f; simpl; [|reflexivity]. destruct (Hfg eq_refl) as [n ->]. rewrite dot_vzero. reflexivity.
+  Qed.
+
+  Lemma oshapes_mask flags : forall gs ds, length flags = length ds -> shapes gs ds -> oshapes (mask flags gs) ds.
+  Proof.
+    unfold oshapes, shapes, mask.
+    induction flags as [|f flags IH]; intros gs ds Hl Hs.
+    - destruct ds; [|discriminate]. constructor.
+    - destruct ds as [|d ds]; [discriminate|]. destruct gs as [|g gs]; [discriminate|].
+      simpl in *. inversion Hs; subst. constructor.
+      + intros g0. destruct f; [discriminate|]. intros [= <-]. reflexivity.
+      + apply IH; [lia | reflexivity].
+  Qed.
+
+  Lemma eff_blocks_unflagged (L : lin K) : Forall (fun b => nth (blk_i b) (l_none L) false = false) (eff_blocks L).
+  Proof.
+    apply Forall_forall. intros b Hb. unfold eff_blocks in Hb. apply filter_In in Hb as [_ Hb].
+    apply negb_true_iff in Hb. exact Hb.
+  Qed.
+
+  Lemma list_eqb_nat_eq a : forall b, list_eqb_nat a b = true -> a = b.
+  Proof.
+    induction a as [|x a IH]; intros [|y b] Hb; simpl in Hb; try discriminate; [reflexivity|].
+    apply andb_true_iff in Hb as [H1 H2]. apply Nat.eqb_eq in H1. subst. f_equal. apply IH. exact H2.
+  Qed.
+
+  Theorem linmod_wt ins outs L : linmod_ok dims ins outs L = true -> wt_mod dims (linmod ins outs L).
+  Proof.
+    unfold linmod_ok. intros Hb.
+    apply andb_true_iff in Hb as [Hb Ho]. apply andb_true_iff in Hb as [Hb Hi]. apply andb_true_iff in Hb as [Hok Hr].
+    apply list_eqb_nat_eq in Hi, Ho. destruct (lin_ok_blocks L Hok) as [Hlen Hbl].
+    unfold wt_mod. simpl. rewrite <- Hi, <- Ho.
+    split; [exact Hr|]. split; [|split].
+    - intros xs _. apply fold_fwd_shapes; [exact Hbl | apply shapes_zeros].
+    - intros ws _. apply oshapes_mask; [exact Hlen|].
+      apply fold_adj_shapes; [exact Hbl | apply shapes_zeros].
+    - intros xs ws _ _. unfold lin_adj.
+      change (sumodot (mask (l_none L) (lin_adj_dense L ws)) xs = sumdot ws (lin_fwd L xs) -> _) || idtac.
+      fold (mask (l_none L) (lin_adj_dense L ws)).
+      rewrite sumodot_mask.
+      + pose proof (fold_adjoint L xs ws (eff_blocks L) Hbl (map vzero (l_odims L)) (map vzero (l_idims L))
+                                 (shapes_zeros _) (shapes_zeros _)) as E.
+        rewrite sumdot_zeros in E. rewrite (sumdot_comm (map vzero (l_idims L)) xs), sumdot_zeros in E.
+        unfold lin_fwd, lin_adj_dense. unfold fold_fwd, fold_adj in E.
+        transitivity (sumdot ws (fold_left (fun ys b => add_nth (blk_o b) (mv (blk_m b) (nth (blk_i b) xs [])) ys)
+                                           (eff_blocks L) (map vzero (l_odims L))) +' 0'); [ring|].
+        rewrite E. ring.
+      + apply fold_adj_flag_zero; [apply eff_blocks_unflagged | apply flag_zero_init; exact Hlen].
   Qed.
 End NetProofs.
